@@ -12,7 +12,7 @@
 
     Discharged here: peq_spec (closed); cross_swap, cross_rev (C03 crossing_spec_sym +
     stateless_eq), occw_aab, occw_aba (C03 vertex laws), cp_invert (C04 invert_complement via
-    Link_C03_C04), cp_full, cp_empty — all under H_STABLE_DET and H_TANGENT only.
+    Link_C03_C04), cp_full, cp_empty — all under H_TANGENT only (H-STABLE-DET is a closed C02 theorem).
     What remains premise of the C07 theorems: H_JORDAN_*, H_SUBREGION_*, H_LATBOUND_*.
 
     Bridge to Model/Contain.v: [to_contain] forgets the kind tag of a C07 loop; on coherent loop
@@ -104,7 +104,6 @@ Definition conv (x : Crosser.crossing) : Relations.crossing :=
   end.
 
 Section Real.
-  Hypothesis HS : H_STABLE_DET.
   Hypothesis HT : H_TANGENT.
   (** Point.referenceDir, OriginPoint, emptyLoopPoint, fullLoopPoint as canonical unit points;
       the zero Point only fills unreachable defaults of Model/Contain.v *)
@@ -134,11 +133,11 @@ Section Real.
   Let peq_trans : forall a b c, c_peq a b = true -> c_peq b c = true -> c_peq a c = true :=
     fun a b c => u_peq_trans (c2u a) (c2u b) (c2u c).
   Let sign_rotate : forall a b c, c_sign b c a = c_sign a b c :=
-    fun a b c => u_sign_rotate HS (c2u a) (c2u b) (c2u c).
+    fun a b c => u_sign_rotate (c2u a) (c2u b) (c2u c).
   Let sign_swap : forall a b c, c_sign c b a = Z.opp (c_sign a b c) :=
-    fun a b c => u_sign_swap HS (c2u a) (c2u b) (c2u c).
+    fun a b c => u_sign_swap (c2u a) (c2u b) (c2u c).
   Let sign_range : forall a b c, c_sign a b c = (-1)%Z \/ c_sign a b c = 0%Z \/ c_sign a b c = 1%Z :=
-    fun a b c => u_sign_range HS (c2u a) (c2u b) (c2u c).
+    fun a b c => u_sign_range (c2u a) (c2u b) (c2u c).
   Let sign_zero_iff : forall a b c,
       c_sign a b c = 0%Z <-> c_peq a b = true \/ c_peq b c = true \/ c_peq c a = true :=
     fun a b c => u_sign_zero_iff (c2u a) (c2u b) (c2u c).
